@@ -473,6 +473,10 @@ def run(facts, R):
                     for f in facts_at(b, bs, facts, x):
                         if is_call(f["expr"], "is_empty") and f["val"] is True and any(y[0] == "call" and len(y) > 3 and y[3] == i for y in walk(f["expr"])):
                             empties.append((x, 0))
+                        elif is_call(f["expr"], "is_empty") and f["val"] is True and getattr(b, "changed", False) and f["expr"][2] and \
+                                any(y[0] == "local" and len(b.defs_of(y[1])) > 1 for y in walk(f["expr"][2][0])) and render(f["expr"][2][0]).rstrip(")").endswith(".body"):
+                            # the response arrives through a variable two request forms assign (`match timeout { None => call(..), Some(t) => call_with_timeout(..) }`)
+                            empties.append((x, 0))
                 w2 = must_cross(b, [term_pt(b, i)], pts, consume + empties)
                 R.check(bool(consume) and w2 is None, "one-next-per-chunk", b.path, "each answered chunk is forwarded before the next request",
                         "the loop can issue another `next` without forwarding the (non-empty) chunk it just received", t.get("span"), "tx.send(chunk) or empty chunk", path=w2)
